@@ -1185,6 +1185,45 @@ def _projection_cache_unit(order_id):
                   setup=_setup_spec, min_obligations=40, timeout_s=600)
 
 
+def _countdict_cache_unit():
+    """History: a one-population count dictionary (symbolic multiplicities, several SNPs per configuration) is turned
+    into a spectrum, then the same (to, from, hits) projection weights are used again by a second from-count-dict call
+    and by Spectrum.project; every later result must equal its cold value and the memoised weight vectors must be
+    unchanged (a user scaling the cached array in place would corrupt every later projection)."""
+    def body(env):
+        import dadi
+        from dadi import Numerics
+        cd = {}
+        for called in (4, 5):
+            for derived in (1, 2, 3):
+                cd[((called,), (derived,), True)] = env.real('cnt_%d_%d' % (called, derived), lo=0)
+        spec = _mkspec(env, 'q5', (6,), mask='corners', positive=False)
+
+        def run():
+            a = dadi.Spectrum._from_count_dict(dict(cd), [3], polarized=True)
+            b = dadi.Spectrum._from_count_dict(dict(cd), [3], polarized=False)
+            c = spec.project([3])
+            return a, b, c
+        _clear_caches()
+        cold = []
+        for k in range(3):
+            _clear_caches()
+            cold.append(run()[k])
+        _clear_caches()
+        first = run()
+        snaps = dict((key, _snap(arr)) for key, arr in Numerics._projection_cache.items())
+        second = run()
+        for nm, got in (('first pass', first), ('second pass', second)):
+            for k, lab in enumerate(('polarized', 'folded', 'project')):
+                env.same('%s %s == cold' % (nm, lab), np.ma.getdata(got[k]), np.ma.getdata(cold[k]))
+        n = 0
+        for key, sn in snaps.items():
+            n += _unchanged(env, 'cached projection weights %s' % (key,), sn, Numerics._projection_cache[key])
+        env.holds('cached weight vectors inspected', n > 0)
+    return H.Unit('cache-intkeys-countdict-history', body, params=dict(enumeration=True), setup=_setup_spec,
+                  min_obligations=20, timeout_s=600)
+
+
 def _partition_cache_unit():
     """Integer-keyed partition / multinomial / beta-binomial caches (ENUMERATION, plain numbers): warm == cold ==
     an independent enumeration, and the cached lists are not modified by BetaBinomConvolution."""
@@ -1420,6 +1459,7 @@ def units(tier, seed):
         us.append(_godambe_unit(sc))
     for o in (0, 1, 2):
         us.append(_projection_cache_unit(o))
+    us.append(_countdict_cache_unit())
     us.append(_partition_cache_unit())
     # The harness replays a bounded number of counterexamples per run, in unit order: the groups that exercise the
     # 4-/5-population drivers and non-contiguous grids (where defects were found when this check was written) go
